@@ -1,6 +1,7 @@
 import P0f.Model.Wirefmt
 import P0f.Model.Match
 import P0f.Model.Find
+import P0f.Model.Uptime
 /-
   Line-protocol driver: one tab-separated op per input line, one answer line per op.
   Every op is answered by the *model* definitions that the theorems in `P0f/Props` are about.
@@ -56,6 +57,17 @@ def handle (f : Array String) : String :=
     match m with
     | none => s!"none {dist}"
     | some (mt, r) => s!"{r.line} {mtStr (some mt)} {dist}"
+  | "uptime" =>
+    let o : UpOpts := { minScaleN := parseNat f[6]!, minScaleD := parseNat f[7]!, maxScaleN := parseNat f[8]!,
+                        maxScaleD := parseNat f[9]!, minWait := parseInt f[10]!, maxWait := parseInt f[11]!,
+                        grace := parseInt f[12]! }
+    match fingerprintUptime o (parseNat f[1]!) (parseNat f[2]! != 0) (parseNat f[3]!) (parseNat f[4]!) (parseInt f[5]!) with
+    | .packetError => "ERR packet"
+    | .noVerdict => "none"
+    | .badTps => "bad"
+    | .outOfDomain => "outofdomain"
+    | .verdict n d fr mi da => s!"v {n}/{d} {fr} {mi} {da}"
+  | "roundfreq" => toString (roundFrequency (parseNat f[1]!))
   | op => s!"ERR unknown-op {op}"
 
 partial def loop (h : IO.FS.Stream) (out : IO.FS.Stream) : IO Unit := do
